@@ -63,6 +63,13 @@ def generate(repo, g):
     for st in fn.body:
         if isinstance(st, ast.Expr) and isinstance(st.value, ast.Constant):
             continue
+        # `if None in self._file_to_node_changes: raise RefactoringError(..)`: the refusal for a Script
+        # without a path, before anything is written (proposed_fixes/c07-pathless-apply-writes-nothing.diff)
+        if isinstance(st, ast.If) and u(st.test) == 'None in self._file_to_node_changes' and not st.orelse \
+                and len(st.body) == 1 and isinstance(st.body[0], ast.Raise) and st.body[0].exc is not None \
+                and u(st.body[0].exc).startswith('RefactoringError('):
+            phases.append('refuse-pathless')
+            continue
         if not isinstance(st, ast.For):
             raise TieBroken('refactoring/__init__.py: Refactoring.apply statement', u(st))
         it, body = u(st.iter), ' '.join(u(b) for b in st.body)
@@ -213,6 +220,51 @@ def generate(repo, g):
         raise TieBroken('refactoring/__init__.py: calculate_to_path has an unknown shape', src_txt[:600])
     g.define('toPathMode', 'String', lean_str(mode),
              'jedi/api/refactoring/__init__.py:Refactoring.get_changed_files.calculate_to_path')
+    # calculate_to_path statement by statement: the path of a changed file is Optional (None for a
+    # Script without a path).
+    #     [if p is None: return p]           -> toPathNoneGuard
+    #     [p = str(p)]                        (string-prefix shape only)
+    #     for from_, to in renames:           -> toPathLoop: 'fold' (p = ..., every rename in turn)
+    #         <p = ... | return ...>                          'first' (return at the first match)
+    #     return p | return Path(p)
+    ctp = [n for n in fn.body if isinstance(n, ast.FunctionDef) and n.name == 'calculate_to_path']
+    if len(ctp) != 1 or len(ctp[0].args.args) != 1 or ctp[0].args.defaults or ctp[0].args.kwonlyargs \
+            or ctp[0].args.vararg or ctp[0].args.kwarg:
+        raise TieBroken('refactoring/__init__.py: get_changed_files has no local calculate_to_path(p)', src_txt[:300])
+    ctp = ctp[0]
+    par = ctp.args.args[0].arg
+    body = [st for st in ctp.body if not (isinstance(st, ast.Expr) and isinstance(st.value, ast.Constant))]
+    guard = False
+    if body and isinstance(body[0], ast.If) and u(body[0].test) == '%s is None' % par and not body[0].orelse \
+            and len(body[0].body) == 1 and isinstance(body[0].body[0], ast.Return) \
+            and u(body[0].body[0].value) in (par, 'None'):
+        guard = True
+        body = body[1:]
+    if body and isinstance(body[0], ast.Assign) and u(body[0]) == '%s = str(%s)' % (par, par) \
+            and mode == 'string-prefix':
+        body = body[1:]
+    if len(body) != 2 or not isinstance(body[0], ast.For) or not isinstance(body[1], ast.Return) \
+            or u(body[1].value) not in (par, 'Path(%s)' % par) or body[0].orelse \
+            or u(body[0].iter) != 'renames' or u(body[0].target) != '(from_, to)':
+        raise TieBroken('refactoring/__init__.py: calculate_to_path statements', u(ctp)[:600])
+    steps = [n for n in ast.walk(body[0]) if isinstance(n, (ast.Assign, ast.AugAssign, ast.Return))]
+    if len(steps) != 1 or any(isinstance(n, (ast.Break, ast.Continue, ast.Raise)) for n in ast.walk(body[0])):
+        raise TieBroken('refactoring/__init__.py: calculate_to_path loop body', u(body[0])[:400])
+    if isinstance(steps[0], ast.Assign) and u(steps[0].targets[0]) == par:
+        loop = 'fold'
+    elif isinstance(steps[0], ast.Return):
+        loop = 'first'
+    else:
+        raise TieBroken('refactoring/__init__.py: calculate_to_path loop step', u(steps[0]))
+    # who is it applied to: the keys of file_to_node_changes, one of which may be None
+    calls = [n for n in ast.walk(fn) if isinstance(n, ast.Call) and u(n.func) == 'calculate_to_path']
+    if len(calls) != 1 or [u(a) for a in calls[0].args] != ['path']:
+        raise TieBroken('refactoring/__init__.py: calculate_to_path is called', [u(c) for c in calls])
+    g.define('toPathNoneGuard', 'Bool', lean_bool(guard),
+             'calculate_to_path: starts with `if p is None: return p` (the key of a Script without a path)')
+    g.define('toPathLoop', 'String', lean_str(loop),
+             'calculate_to_path: the loop over the renames assigns p and goes on ("fold") or returns at the '
+             'first rename the path is below ("first")')
 
     # --- exception classes raised by the refactoring code
     raised = set()
